@@ -9,9 +9,9 @@ Clauses(e) ==
     ELSE LET f == e.file IN
     [ three_difficulties |-> Len(e.charts) = 3,
       paired |-> \A d \in 1..3 : Paired(f.lvls[d]),
-      hits   |-> Len(e.charts) = 3 => \A d \in 1..3 : HitsMatch(DenHits(f, f.lvls[d]), e.charts[d].hits, 4 + Len(TempoList(f, f.lvls[d]))),
-      holds  |-> Len(e.charts) = 3 => \A d \in 1..3 : HoldsMatch(DenHolds(f, f.lvls[d]), e.charts[d].holds, 4 + Len(TempoList(f, f.lvls[d]))),
-      tempo  |-> Len(e.charts) = 3 => \A d \in 1..3 : TempoMatch(f, f.lvls[d], e.charts[d].bpms, 4 + Len(TempoList(f, f.lvls[d]))),
+      hits   |-> Len(e.charts) = 3 => \A d \in 1..3 : HitsMatch(DenHits(f, f.lvls[d]), e.charts[d].hits, 4 + Len(TempoList(f, f.lvls[d])) + e.slack),
+      holds  |-> Len(e.charts) = 3 => \A d \in 1..3 : HoldsMatch(DenHolds(f, f.lvls[d]), e.charts[d].holds, 4 + Len(TempoList(f, f.lvls[d])) + e.slack),
+      tempo  |-> Len(e.charts) = 3 => \A d \in 1..3 : TempoMatch(f, f.lvls[d], e.charts[d].bpms, 4 + Len(TempoList(f, f.lvls[d])) + e.slack),
       header |-> /\ e.meta.title = f.title /\ e.meta.artist = f.artist /\ e.meta.creator = f.creator /\ e.meta.ojm_file = f.ojm_file
                  /\ e.meta.song_id = f.song_id /\ e.meta.genre = f.genre /\ e.meta.bpm1000 = f.bpm1000
                  /\ e.meta.level = f.level /\ e.meta.note_count = f.note_count /\ e.meta.package_count = f.package_count
